@@ -240,6 +240,9 @@ type Field struct {
 	// field type. If the field is coming from a pointer to a struct,
 	// there will be a second element providing a pointer to the field.
 	Out []types.Type
+
+	// call is the position of the wire.FieldsOf call that lists the field.
+	call token.Pos
 }
 
 // Load finds all the provider sets in the packages that match the given
@@ -1136,6 +1139,7 @@ func processFieldsOf(fset *token.FileSet, info *types.Info, call *ast.CallExpr) 
 			Pkg:    v.Pkg(),
 			Pos:    v.Pos(),
 			Out:    out,
+			call:   call.Pos(),
 		})
 	}
 	return fields, nil
